@@ -16,7 +16,7 @@ BIN="$ROOT/fuzz/target/x86_64-unknown-linux-gnu/release/$T"
 [ -x "$BIN" ] || exit 1
 SEED="${VERIF_SEED:-1}"; [ "$SEED" = 0 ] && SEED=1
 JOBS="${PPV_FUZZ_JOBS:-8}"
-RUNS="${PPV_FUZZ_RUNS:-300000}"      # per job
+RUNS="${PPV_FUZZ_RUNS:-150000}"      # per job
 W="$ROOT/work/fuzz-$T-$$"
 rm -rf "$W"; mkdir -p "$W/corpus" "$W/artifacts"
 # fresh copy of the committed seed corpus
